@@ -19,14 +19,19 @@ CLAIMS = {
         'note': NOTE_COMMON + EVAL_HYP + ' The specification states the library conventions explicitly (whole-match $ operands, both-absent rule of path == path).',
         'technique': 'Coq refinement proof (implementation model vs specification, mutual induction) + differential correspondence check'},
     'C07': {
-        'text': 'PARTIAL. In the model an object is an association list in arbitrary order; evaluator and specification reach members only '
-                'through sorted_keys and lookup. Proved: sorted_keys is sorted by the byte-wise order and, like lookup, depends only on '
-                'the set of members (permutation invariance); recursive descent is pre-order with children in index / sorted-key order; '
-                'array, union and multi-name order is the written order by the specification the model refines. Not proved: the congruence '
-                '"documents equal up to permutation give results equal up to permutation" through the whole evaluator. Tie: equal maps built '
-                'in 3 insertion orders, each evaluated repeatedly and interleaved with other maps, must give one sequence, equal to the model.',
-        'note': NOTE_COMMON + ' sort.Strings is assumed to sort byte-wise; Go map iteration order is not modelled.',
-        'technique': 'Coq proofs (insertion sort: sortedness + permutation invariance) + repeated-evaluation oracle + correspondence'},
+        'text': 'C07_order_independent (coq/Prop_C07.v, SpecPerm.v): two documents that are the same JSON value built in different member '
+                'orders (same keys, recursively the same members: same_doc; C07_same_document_same_canon: they have the same canonical '
+                'form) give, for every function-free path, the same sequence of results — same length, same order, values equal up to '
+                'canonical form — on the specification that the evaluator model refines exactly (C01_refines_spec); deep equality, the '
+                'only operation that looks at whole objects, is insensitive to member order (deep_eq_canon). In the model an object is an '
+                'association list in arbitrary order, reached only through sorted_keys and lookup: C07_keys_sorted (ascending byte-wise), '
+                'C07_keys_order_independent, C07_lookup_order_independent, C07_preorder_array/object (container before descendants, index '
+                'order, sorted key order); union and multi-name order is the written order by the specification. Hypotheses: distinct keys '
+                'at every level (encoding/json), no user function in the path. Tie: equal maps built in 3 insertion orders (aliased '
+                'sub-values included), each evaluated repeatedly and interleaved with other maps, must give one sequence, equal to the model.',
+        'note': NOTE_COMMON + ' sort.Strings is assumed to sort byte-wise; Go map iteration order is not modelled (the model has no such notion).',
+        'technique': 'Coq simulation proof on the specification (canonical form, mutual induction) + sort/permutation lemmas + '
+                     'repeated-evaluation oracle + correspondence'},
     'C08': {
         'text': 'C08_compose (coq/Prop_C08.v): on the specification, for a well-formed prefix P and a continuation Q without `$` and '
                 'without aggregates, values(P++Q) = concatenation over values v of P of values($Q on v); C08_compose_same_root for any '
